@@ -32,3 +32,71 @@ pub fn change_for(files: &[(String, String)], structural: bool) -> Change {
     }
     change
 }
+
+/// Shape of a GleamGen workspace.  `TwoPackages`: m1 is the module of the local package `app`, the library modules belong
+/// to a second local package `lib` that `app` depends on (a path dependency: renames are allowed in both).
+/// `OnePackage`: all modules in one local package.  Gleam resolves imports through dependencies, so every answer of the
+/// analysis must be the same in both shapes.
+#[derive(Debug, Clone, Copy, PartialEq, Eq)]
+pub enum Shape {
+    OnePackage,
+    TwoPackages,
+}
+
+impl Shape {
+    /// three of four workspaces have two packages
+    pub fn seeded(seed: u64, case_index: usize) -> Shape {
+        if (seed.wrapping_add(case_index as u64)) % 4 == 3 { Shape::OnePackage } else { Shape::TwoPackages }
+    }
+    pub fn name(self) -> &'static str {
+        match self { Shape::OnePackage => "one-package", Shape::TwoPackages => "two-packages" }
+    }
+}
+
+/// Workspace of a generated program: FileId(0) = the first module (`m1`), FileId(1 + i) = the i-th further (library) module,
+/// then the gleam.toml file(s).  Module names may be paths (`sub/m2`).
+pub fn gen_workspace(shape: Shape, modules: &[(&str, &str)]) -> Ws {
+    let mut host = AnalysisHost::new();
+    let mut change = Change::default();
+    let mut files: Vec<(String, String)> = vec![];
+    let n = modules.len() as u32;
+    match shape {
+        Shape::OnePackage => {
+            let mut set = FileSet::default();
+            for (n, t) in modules {
+                files.push((format!("/test/{n}.gleam"), t.to_string()));
+            }
+            files.push(("/gleam.toml".to_string(), String::new()));
+            for (i, (p, t)) in files.iter().enumerate() {
+                set.insert(FileId(i as u32), VfsPath::new(p));
+                change.change_file(FileId(i as u32), t.as_str().into());
+            }
+            change.set_roots(vec![SourceRoot::new(set, "/".into())]);
+            let mut g = PackageGraph::default();
+            g.add_package("test".into(), FileId(n), true);
+            change.set_package_graph(g);
+        }
+        Shape::TwoPackages => {
+            let mut app = FileSet::default();
+            let mut lib = FileSet::default();
+            for (i, (n, t)) in modules.iter().enumerate() {
+                files.push((format!("/{}/src/{n}.gleam", if i == 0 { "app" } else { "lib" }), t.to_string()));
+            }
+            files.push(("/app/gleam.toml".to_string(), "name = \"app\"\nversion = \"1.0.0\"\n\n[dependencies]\nlib = { path = \"../lib\" }\n".to_string()));
+            files.push(("/lib/gleam.toml".to_string(), "name = \"lib\"\nversion = \"1.0.0\"\n".to_string()));
+            for (i, (p, t)) in files.iter().enumerate() {
+                let set = if p.starts_with("/app/") { &mut app } else { &mut lib };
+                set.insert(FileId(i as u32), VfsPath::new(p));
+                change.change_file(FileId(i as u32), t.as_str().into());
+            }
+            change.set_roots(vec![SourceRoot::new(app, "/app".into()), SourceRoot::new(lib, "/lib".into())]);
+            let mut g = PackageGraph::default();
+            let app_p = g.add_package("app".into(), FileId(n), true);
+            let lib_p = g.add_package("lib".into(), FileId(n + 1), true);
+            g.add_dep(app_p, ide::Dependency { package: lib_p });
+            change.set_package_graph(g);
+        }
+    }
+    host.apply_change(change);
+    Ws { host, files }
+}
